@@ -28,36 +28,92 @@ pub enum Case {
 const ALPHA: [u8; 8] = [0x00, b'a', 0xC3, 0xA9, 0xE2, 0x82, 0xAC, 0xFF];
 
 pub fn check_field(buf: &[u8], size: usize) -> CheckResult {
-    let r = guard(|| dlt_zero_terminated_string(buf, size).map(|(rest, s)| (rest.len(), rest.as_ptr() as usize, s.to_string())))
-        .map_err(|p| Violation::from_panic(&format!("dlt_zero_terminated_string(size={}) on {}", size, hex_short(buf)), &p))?;
+    let r = guard(|| {
+        dlt_zero_terminated_string(buf, size)
+            .map(|(rest, s)| (rest.len(), rest.as_ptr() as usize, s.to_string()))
+    })
+    .map_err(|p| {
+        Violation::from_panic(
+            &format!(
+                "dlt_zero_terminated_string(size={}) on {}",
+                size,
+                hex_short(buf)
+            ),
+            &p,
+        )
+    })?;
     if buf.len() >= size {
         let want = refcodec::text(&buf[..size]);
         match r {
             Ok((rest_len, ptr, s)) => {
-                if rest_len != buf.len() - size || (rest_len > 0 && ptr != buf.as_ptr() as usize + size) {
-                    return Err(viol!("field:consumed", "size {} on a {}-byte buffer left {} bytes instead of {} ({})", size, buf.len(), rest_len, buf.len() - size, hex_short(buf)));
+                if rest_len != buf.len() - size
+                    || (rest_len > 0 && ptr != buf.as_ptr() as usize + size)
+                {
+                    return Err(viol!(
+                        "field:consumed",
+                        "size {} on a {}-byte buffer left {} bytes instead of {} ({})",
+                        size,
+                        buf.len(),
+                        rest_len,
+                        buf.len() - size,
+                        hex_short(buf)
+                    ));
                 }
                 if s != want {
-                    return Err(viol!("field:value", "size {}: got {:?}, expected {:?} ({})", size, s, want, hex_short(buf)));
+                    return Err(viol!(
+                        "field:value",
+                        "size {}: got {:?}, expected {:?} ({})",
+                        size,
+                        s,
+                        want,
+                        hex_short(buf)
+                    ));
                 }
             }
-            Err(e) => return Err(viol!("field:error", "size {} on a {}-byte buffer failed: {:?} ({})", size, buf.len(), e, hex_short(buf))),
+            Err(e) => {
+                return Err(viol!(
+                    "field:error",
+                    "size {} on a {}-byte buffer failed: {:?} ({})",
+                    size,
+                    buf.len(),
+                    e,
+                    hex_short(buf)
+                ))
+            }
         }
         let field = &buf[..size];
         let has_nul = field.contains(&0);
         let cut_multibyte = want.len() < field.iter().position(|&c| c == 0).unwrap_or(size);
-        Ok(Pass::new(has_nul || cut_multibyte).class("enough-bytes").class_if(has_nul, "has-nul").class_if(cut_multibyte, "utf8-cut").class_if(size == 0, "size-0"))
+        Ok(Pass::new(has_nul || cut_multibyte)
+            .class("enough-bytes")
+            .class_if(has_nul, "has-nul")
+            .class_if(cut_multibyte, "utf8-cut")
+            .class_if(size == 0, "size-0"))
     } else {
         match r {
             Err(DltParseError::IncompleteParse { needed }) => {
                 if let Some(k) = needed {
                     if k.get() > size - buf.len() {
-                        return Err(viol!("field:hint-too-large", "size {} with {} bytes available: hint {} > shortfall {}", size, buf.len(), k, size - buf.len()));
+                        return Err(viol!(
+                            "field:hint-too-large",
+                            "size {} with {} bytes available: hint {} > shortfall {}",
+                            size,
+                            buf.len(),
+                            k,
+                            size - buf.len()
+                        ));
                     }
                 }
                 Ok(Pass::new(false).class("too-short"))
             }
-            other => Err(viol!("field:not-incomplete", "size {} with only {} bytes available returned {:?} ({})", size, buf.len(), other, hex_short(buf))),
+            other => Err(viol!(
+                "field:not-incomplete",
+                "size {} with only {} bytes available returned {:?} ({})",
+                size,
+                buf.len(),
+                other,
+                hex_short(buf)
+            )),
         }
     }
 }
@@ -76,22 +132,44 @@ fn check_ids(ids: &[u8], big_endian: bool) -> CheckResult {
     b.extend_from_slice(&ids[8..12]);
     b.extend_from_slice(&ids[12..16]);
     b.extend_from_slice(&[1, 2, 3, 4]);
-    let r = guard(|| dlt_message(&b, None, true).map(|(rest, pm)| (rest.len(), pm))).map_err(|p| Violation::from_panic(&format!("dlt_message on {}", hex_short(&b)), &p))?;
+    let r = guard(|| dlt_message(&b, None, true).map(|(rest, pm)| (rest.len(), pm)))
+        .map_err(|p| Violation::from_panic(&format!("dlt_message on {}", hex_short(&b)), &p))?;
     match r {
         Ok((0, ParsedMessage::Item(m))) => {
             let got = [
-                m.storage_header.as_ref().map(|s| s.ecu_id.clone()).unwrap_or_default(),
+                m.storage_header
+                    .as_ref()
+                    .map(|s| s.ecu_id.clone())
+                    .unwrap_or_default(),
                 m.header.ecu_id.clone().unwrap_or_default(),
-                m.extended_header.as_ref().map(|e| e.application_id.clone()).unwrap_or_default(),
-                m.extended_header.as_ref().map(|e| e.context_id.clone()).unwrap_or_default(),
+                m.extended_header
+                    .as_ref()
+                    .map(|e| e.application_id.clone())
+                    .unwrap_or_default(),
+                m.extended_header
+                    .as_ref()
+                    .map(|e| e.context_id.clone())
+                    .unwrap_or_default(),
             ];
-            let names = ["storage ECU id", "header ECU id", "application id", "context id"];
+            let names = [
+                "storage ECU id",
+                "header ECU id",
+                "application id",
+                "context id",
+            ];
             let mut nt = false;
             for i in 0..4 {
                 let field = &ids[i * 4..i * 4 + 4];
                 let want = refcodec::text(field);
                 if got[i] != want {
-                    return Err(viol!(format!("ids:{}", names[i]), "{} bytes {} parsed as {:?}, expected {:?}", names[i], hex_short(field), got[i], want));
+                    return Err(viol!(
+                        format!("ids:{}", names[i]),
+                        "{} bytes {} parsed as {:?}, expected {:?}",
+                        names[i],
+                        hex_short(field),
+                        got[i],
+                        want
+                    ));
                 }
                 nt |= field.contains(&0) || want.len() < 4;
             }
@@ -106,14 +184,30 @@ fn check_ids(ids: &[u8], big_endian: bool) -> CheckResult {
                     context_id_count: 1,
                 };
                 let pf = dlt_core::filtering::ProcessedDltFilterConfig::from(cfg);
-                let r = guard(|| dlt_message(&b, Some(&pf), true).map(|(rest, pm)| (rest.len(), pm))).map_err(|p| Violation::from_panic(&format!("dlt_message with a filter on {}", hex_short(&b)), &p))?;
+                let r =
+                    guard(|| dlt_message(&b, Some(&pf), true).map(|(rest, pm)| (rest.len(), pm)))
+                        .map_err(|p| {
+                        Violation::from_panic(
+                            &format!("dlt_message with a filter on {}", hex_short(&b)),
+                            &p,
+                        )
+                    })?;
                 match r {
                     Ok((0, ParsedMessage::Item(mf))) => {
                         let gotf = [
-                            mf.storage_header.as_ref().map(|s| s.ecu_id.clone()).unwrap_or_default(),
+                            mf.storage_header
+                                .as_ref()
+                                .map(|s| s.ecu_id.clone())
+                                .unwrap_or_default(),
                             mf.header.ecu_id.clone().unwrap_or_default(),
-                            mf.extended_header.as_ref().map(|e| e.application_id.clone()).unwrap_or_default(),
-                            mf.extended_header.as_ref().map(|e| e.context_id.clone()).unwrap_or_default(),
+                            mf.extended_header
+                                .as_ref()
+                                .map(|e| e.application_id.clone())
+                                .unwrap_or_default(),
+                            mf.extended_header
+                                .as_ref()
+                                .map(|e| e.context_id.clone())
+                                .unwrap_or_default(),
                         ];
                         for i in 0..4 {
                             if gotf[i] != got[i] {
@@ -121,25 +215,44 @@ fn check_ids(ids: &[u8], big_endian: bool) -> CheckResult {
                             }
                         }
                     }
-                    other => return Err(viol!("ids:under-filter", "a filter whose sets contain the message's ids did not keep it: {}", short_dbg(&other))),
+                    other => {
+                        return Err(viol!(
+                            "ids:under-filter",
+                            "a filter whose sets contain the message's ids did not keep it: {}",
+                            short_dbg(&other)
+                        ))
+                    }
                 }
             }
             // ... and through the statistics scan, which decodes the same headers
             {
                 struct Rec(Vec<[String; 4]>);
                 impl dlt_core::statistics::StatisticCollector for Rec {
-                    fn collect_statistic(&mut self, s: dlt_core::statistics::Statistic) -> Result<(), dlt_core::parse::DltParseError> {
+                    fn collect_statistic(
+                        &mut self,
+                        s: dlt_core::statistics::Statistic,
+                    ) -> Result<(), dlt_core::parse::DltParseError> {
                         self.0.push([
-                            s.storage_header.as_ref().map(|h| h.ecu_id.clone()).unwrap_or_default(),
+                            s.storage_header
+                                .as_ref()
+                                .map(|h| h.ecu_id.clone())
+                                .unwrap_or_default(),
                             s.standard_header.ecu_id.clone().unwrap_or_default(),
-                            s.extended_header.as_ref().map(|e| e.application_id.clone()).unwrap_or_default(),
-                            s.extended_header.as_ref().map(|e| e.context_id.clone()).unwrap_or_default(),
+                            s.extended_header
+                                .as_ref()
+                                .map(|e| e.application_id.clone())
+                                .unwrap_or_default(),
+                            s.extended_header
+                                .as_ref()
+                                .map(|e| e.context_id.clone())
+                                .unwrap_or_default(),
                         ]);
                         Ok(())
                     }
                 }
                 let seen = guard(|| {
-                    let mut reader = dlt_core::read::DltMessageReader::with_capacity(65551, 65551, &b[..], true);
+                    let mut reader =
+                        dlt_core::read::DltMessageReader::with_capacity(65551, 65551, &b[..], true);
                     let mut rec = Rec(vec![]);
                     dlt_core::statistics::collect_statistics(&mut reader, &mut rec).map(|_| rec.0)
                 })
@@ -152,7 +265,13 @@ fn check_ids(ids: &[u8], big_endian: bool) -> CheckResult {
                             }
                         }
                     }
-                    other => return Err(viol!("ids:statistics", "the statistics scan of one message saw {}", short_dbg(&other))),
+                    other => {
+                        return Err(viol!(
+                            "ids:statistics",
+                            "the statistics scan of one message saw {}",
+                            short_dbg(&other)
+                        ))
+                    }
                 }
             }
             // "with fewer than n bytes available it reports incomplete": the buffer ends inside each of the four id
@@ -165,9 +284,46 @@ fn check_ids(ids: &[u8], big_endian: bool) -> CheckResult {
                 for (i, fs) in field_starts.iter().enumerate() {
                     for have in 0..4usize {
                         let cut = junk.len() + fs + have;
-                        let r = guard(|| dlt_message(&buf[..cut], None, true).map(|(rest, pm)| (rest.len(), pm)))
-                            .map_err(|p| Violation::from_panic(&format!("dlt_message on {}", hex_short(&buf[..cut])), &p))?;
-                        match r {
+                        // without a filter, and under filters that would reject the complete message by its ECU id / by
+                        // its application id (the ids are not complete yet: nothing can be decided)
+                        for fsel in 0..3u8 {
+                            let s = |v: &[&str]| {
+                                Some(v.iter().map(|x| x.to_string()).collect::<Vec<_>>())
+                            };
+                            let pf = match fsel {
+                                0 => None,
+                                1 => Some(dlt_core::filtering::ProcessedDltFilterConfig::from(
+                                    dlt_core::filtering::DltFilterConfig {
+                                        min_log_level: None,
+                                        app_ids: None,
+                                        ecu_ids: s(&["~no"]),
+                                        context_ids: None,
+                                        app_id_count: 0,
+                                        context_id_count: 0,
+                                    },
+                                )),
+                                _ => Some(dlt_core::filtering::ProcessedDltFilterConfig::from(
+                                    dlt_core::filtering::DltFilterConfig {
+                                        min_log_level: Some(1),
+                                        app_ids: s(&["~no"]),
+                                        ecu_ids: None,
+                                        context_ids: s(&[]),
+                                        app_id_count: 2,
+                                        context_id_count: 1,
+                                    },
+                                )),
+                            };
+                            let r = guard(|| {
+                                dlt_message(&buf[..cut], pf.as_ref(), true)
+                                    .map(|(rest, pm)| (rest.len(), pm))
+                            })
+                            .map_err(|p| {
+                                Violation::from_panic(
+                                    &format!("dlt_message on {}", hex_short(&buf[..cut])),
+                                    &p,
+                                )
+                            })?;
+                            match r {
                             Err(dlt_core::parse::DltParseError::IncompleteParse { needed }) => {
                                 if let Some(n) = needed {
                                     if n.get() > buf.len() - cut {
@@ -178,17 +334,23 @@ fn check_ids(ids: &[u8], big_endian: bool) -> CheckResult {
                             other => {
                                 return Err(viol!(
                                     format!("ids:{}:not-incomplete", names[i]),
-                                    "buffer ends {} bytes into the {} ({} junk bytes in front): expected incomplete, got {}; buffer={}",
-                                    have, names[i], junk.len(), short_dbg(&other), hex_short(&buf[..cut])
+                                    "buffer ends {} bytes into the {} ({} junk bytes in front, filter {}): expected incomplete, got {}; buffer={}",
+                                    have, names[i], junk.len(), ["none", "rejecting the ECU id", "rejecting the application id"][fsel as usize], short_dbg(&other), hex_short(&buf[..cut])
                                 ))
                             }
+                        }
                         }
                     }
                 }
             }
             Ok(Pass::new(nt).class("ids"))
         }
-        other => Err(viol!("ids:parse", "message with id bytes {} did not parse: {}", hex_short(ids), short_dbg(&other))),
+        other => Err(viol!(
+            "ids:parse",
+            "message with id bytes {} did not parse: {}",
+            hex_short(ids),
+            short_dbg(&other)
+        )),
     }
 }
 
@@ -270,7 +432,13 @@ fn alphabet_block(block: u64) -> BlockReport {
                 Ok(p) => rep.nontrivial += p.nontrivial as u64,
                 Err(v) => {
                     if rep.violation.is_none() {
-                        rep.violation = Some((json!(Case::Field { buf: buf.clone(), size }), v));
+                        rep.violation = Some((
+                            json!(Case::Field {
+                                buf: buf.clone(),
+                                size
+                            }),
+                            v,
+                        ));
                     }
                 }
             }
@@ -293,7 +461,13 @@ pub fn run(run: &Run) {
     run.regressions(&replay);
     // exhaustive: 8^0 + ... + 8^6 strings x 8 sizes; block = first two symbols (64 blocks) for length >= 2, plus one block for shorter
     run.enumerate("small-alphabet-exhaustive", 65, true, alphabet_block);
-    run.random("random", run.cases(2_000_000, 30_000_000), 0.3, strategy, check);
+    run.random(
+        "random",
+        run.cases(2_000_000, 30_000_000),
+        0.3,
+        strategy,
+        check,
+    );
 }
 
 pub fn replay(section: &str, case: &Json) -> Option<CheckResult> {
